@@ -5,7 +5,8 @@ IterateSATGen / RandomGen (2 and 20 requested) / IterateGen / CMSGen, print_expe
 experiments_to_tuples, experiments_to_dicts, sample_mismatch_experiment (their experiments argument is the most recent
 synthesized result, or a result synthesized from a separate fresh block when there is none yet).
 Blocks: plain; implied derived factor; hidden weight factor with a rewritten constraint; continuous factor; derived
-continuous factors (same-trial, window) with a ContinuousConstraint; Repeat with a preamble.
+continuous factors (same-trial, window) with a ContinuousConstraint; Repeat with a preamble; LatinSquare over two
+three-level factors (one diagonal segment).
 ALL histories up to the depth bound are executed on a freshly built block each (a state is the history that reaches it);
 the canonical state (names of design / act_design / continuous factors, constraint classes, excluded levels, errors, trial
 count) is hashed to count distinct states.
@@ -19,7 +20,7 @@ import random
 from vt import core, dsw, gen, build as B, ref as R
 
 PROP = 'C19'
-RULE = ('6 representative blocks x all histories of length <= 3 (thorough 4) over 11 operations; item = (block, first operation); '
+RULE = ('7 representative blocks x all histories of length <= 3 (thorough 4) over 11 operations; item = (block, first operation); '
         'states = distinct canonical block states seen, transitions = operations executed; non-trivial = the history contains a synthesis '
         'call after some other call.')
 ASSUMPTIONS = ['validity of the discrete part by the reference membership oracle (vt/ref.py); continuous values are C22\'s subject']
@@ -27,7 +28,7 @@ BUDGET_S = {'quick': 150, 'thorough': 1200}
 DEPTH = {'quick': 3, 'thorough': 4}
 OPS = ['synth_sat', 'synth_rnd', 'synth_rnd_many', 'synth_iter', 'synth_cms', 'print', 'tabulate', 'csv', 'tuples', 'dicts', 'mismatch']
 MANY = 20
-BLOCKS = ['plain', 'implied', 'hidden', 'continuous', 'derived_continuous', 'repeat_preamble']
+BLOCKS = ['plain', 'implied', 'hidden', 'continuous', 'derived_continuous', 'repeat_preamble', 'latin']
 
 
 def make(kind):
@@ -43,6 +44,10 @@ def make(kind):
     elif kind == 'hidden':
         Aw = gen.basic('A', 2, [2, 1])
         spec = {'factors': [Aw, Bf], 'block': gen.cross(['A', 'B'], ['B'], [{'c': 'AtMostKInARow', 'k': 1, 'factor': 'A', 'level': 'a1'}])}
+    elif kind == 'latin':
+        # one diagonal segment per sequence, so a diagonal counter kept between calls would show at once
+        A3 = gen.basic('A', 3); B3 = gen.basic('B', 3)
+        spec = {'factors': [A3, B3], 'block': gen.cross(['A', 'B'], ['A'], [{'c': 'LatinSquare', 'factors': ['A', 'B']}])}
     elif kind == 'repeat_preamble':
         TA = gen.window('TA', ['A'], fm0, 2, gen.same, kind='transition', start=1)
         spec = {'factors': [A, Bf, TA], 'block': {'op': 'repeat', 'block': gen.cross(['A', 'B', 'TA'], ['TA'], []),
